@@ -191,3 +191,34 @@ def placement_tasks(prog, tier, only_kinds=None):
                         return collections.Counter(cells=c_, proved=p_)
                     ptasks.append((task, (), {}))
     return ptasks
+
+
+FRAC_BITS_Q = {'Q8E0': 12, 'Q16E1': 56, 'Q32E2': 240}
+
+
+def image_tasks(prog, tier):
+    """tasks of the QIMAGE rule (rules_rounding.check_quire_image) for every quire, base spelling, power of two and sign"""
+    import rules_rounding as RR
+    tasks = []
+    for q in QTYS:
+        P = q.pty.tykey
+        ts = {8: [0, -3, 4], 16: [0, -9, 13], 32: [0, -21, 37]}[q.pty.bits]
+        if tier == 'thorough':
+            ts = {8: list(range(-6, 6)), 16: list(range(-27, 27, 3)), 32: list(range(-118, 118, 13))}[q.pty.bits]
+        for tr, sub in (('core::ops::AddAssign', False), ('core::ops::SubAssign', True)):
+            p2 = find_assign_impl(prog, q, tr, '(%s, %s)' % (P, P))
+            p1 = find_assign_impl(prog, q, tr, P)
+            for kind, path in (('pair', p2), ('pair_r', p2), ('one', p1)):
+                if not path:
+                    continue
+                label = '<%s as %s<%s>>%s' % (q.name, tr.split('::')[-1], {'pair': '(P,2^t)', 'pair_r': '(2^t,P)', 'one': 'P'}[kind], '[sub]' if sub else '')
+                for t in (ts if kind != 'one' else [0]):
+                    for sg in (False, True):
+                        tasks.append((RR.check_quire_image, (q, FRAC_BITS_Q[q.name], path, kind, [t], label), dict(signs=(sg,))))
+        for nm, sub in (('add_product', False), ('sub_product', True)):
+            pi = prog.inherent(q.tykey, nm)
+            if pi:
+                label = '%s::%s(p, 2^t)%s' % (q.name, nm, '[sub]' if sub else '')
+                for sg in (False, True):
+                    tasks.append((RR.check_quire_image, (q, FRAC_BITS_Q[q.name], pi, 'inh2', [ts[0], ts[-1]], label), dict(signs=(sg,))))
+    return tasks
